@@ -1,6 +1,8 @@
 package main
 
 import (
+	_ "embed"
+	"encoding/json"
 	"fmt"
 	"go/ast"
 	"go/token"
@@ -160,6 +162,86 @@ func (p *Prog) RelPkg(pkg *types.Package) string {
 
 // LookupFunc finds a package-level function ("name") or method ("Type.name") of package rel.
 func (p *Prog) LookupFunc(rel, name string) *types.Func {
+	f := p.lookupFuncByName(rel, name)
+	key := rel + " " + name
+	if anchorRecord != nil && f != nil {
+		anchorRecord[key] = sigKey(f)
+	}
+	if f == nil {
+		// renamed? the reference tree's signature of this anchor (anchors.json) identifies it when
+		// exactly one function with the same receiver and signature exists that is not itself an anchor
+		f = p.lookupRenamed(rel, name)
+	}
+	return f
+}
+
+// sigKey: receiver type name and signature without parameter names.
+func sigKey(f *types.Func) string {
+	sig := f.Type().(*types.Signature)
+	recv := ""
+	if r := sig.Recv(); r != nil {
+		t := r.Type()
+		if pt, ok := t.(*types.Pointer); ok {
+			t = pt.Elem()
+		}
+		if n, ok := t.(*types.Named); ok {
+			recv = n.Obj().Name()
+		}
+	}
+	var ps, rs []string
+	for i := 0; i < sig.Params().Len(); i++ {
+		ps = append(ps, sig.Params().At(i).Type().String())
+	}
+	for i := 0; i < sig.Results().Len(); i++ {
+		rs = append(rs, sig.Results().At(i).Type().String())
+	}
+	v := ""
+	if sig.Variadic() {
+		v = "..."
+	}
+	return recv + "(" + strings.Join(ps, ",") + v + ")(" + strings.Join(rs, ",") + ")"
+}
+
+func (p *Prog) lookupRenamed(rel, name string) *types.Func {
+	want, ok := anchorSigs[rel+" "+name]
+	if !ok {
+		return nil
+	}
+	pkg := p.ByRel[rel]
+	if pkg == nil {
+		return nil
+	}
+	// names that are anchors themselves (and exist) are not candidates
+	taken := map[string]bool{}
+	for k := range anchorSigs {
+		if strings.HasPrefix(k, rel+" ") {
+			n := strings.TrimPrefix(k, rel+" ")
+			if p.lookupFuncByName(rel, n) != nil {
+				taken[n] = true
+			}
+		}
+	}
+	var cands []*types.Func
+	for f := range p.funcDecls {
+		if f.Pkg() != pkg.Types || sigKey(f) != want {
+			continue
+		}
+		n := f.Name()
+		if i := strings.Index(want, "("); i > 0 {
+			n = want[:i] + "." + n
+		}
+		if taken[n] {
+			continue
+		}
+		cands = append(cands, f)
+	}
+	if len(cands) == 1 {
+		return cands[0]
+	}
+	return nil
+}
+
+func (p *Prog) lookupFuncByName(rel, name string) *types.Func {
 	pkg := p.ByRel[rel]
 	if pkg == nil {
 		return nil
@@ -363,3 +445,16 @@ func (p *Prog) InfoAt(pos token.Pos) *types.Info {
 	}
 	return nil
 }
+
+// anchorRecord, when non-nil (hpcheck -record-anchors), collects the signature of every function
+// looked up by name; anchorSigs is the committed table written from it (anchors.json, embedded).
+var anchorRecord map[string]string
+
+//go:embed anchors.json
+var anchorsJSON []byte
+
+var anchorSigs = func() map[string]string {
+	m := map[string]string{}
+	_ = json.Unmarshal(anchorsJSON, &m)
+	return m
+}()
